@@ -5,6 +5,7 @@ package main
 
 import (
 	"fmt"
+	"strings"
 
 	"golang.org/x/tools/go/ssa"
 )
@@ -24,7 +25,7 @@ func init() {
 	register(&PropInfo{
 		ID: "C02", Level: "other", MinObls: 22,
 		Explanation: "Static must-pass-through and provenance rules over the obfs4 client path: R1 Dial succeeds only after hmac.Equal==true on resp[pos+16:pos+32] against HMAC(resp[:pos+16]|hour), ntor.ClientHandshake ok on (own ephemeral keypair, ToPublic(received representative), configured identity key, configured node id), and ntor.CompareAuth==true between that call's AUTH and the AUTH bytes copied from resp[32:64]; the seed returned is that call's KEY_SEED; " +
-			"R2 the handshake HMAC is keyed with identity-key|node-id on both roles; R3 the link encoder/decoder are installed only after the parser succeeded, from ntor.Kdf of that parser's seed, and Dial closes the raw connection on failure; R4 the server side requires MAC and ntor success (with C04); R5 CompareAuth is a constant-time comparison of both operands; R6 every connection uses a keypair from a fresh ntor.NewKeypair(true).",
+			"R2 the handshake HMAC is keyed with identity-key|node-id on both roles; R3 the link encoder/decoder are installed only after the parser succeeded, from ntor.Kdf of that parser's seed, and Dial closes the raw connection on failure; R4 the server side requires MAC and ntor success (with C04); R5 CompareAuth is a constant-time comparison of both operands; R6 every connection uses a keypair from a fresh ntor.NewKeypair(true); R7 the ntor status tests each X25519 output for all-zero separately (low-order identity or ephemeral keys are refused); R8 the parsers re-scan for the mark from the fixed protocol offset on every call (no state carried between chunks).",
 		NotCovered: []string{"that HMAC-SHA256, X25519 and ntor actually bind what they are fed (cryptography)", "behaviour under concurrent handshakes beyond the absence of shared mutable state other than the replay filter"},
 		Trusted:    []string{"go/types+go/ssa faithful", "crypto/hmac.Equal and crypto/subtle are constant-time equality"},
 		Run:        runC02,
@@ -291,6 +292,19 @@ func runC02(c *Ctx) {
 				ob.Violate("WrapConn can succeed without %s", a.Name)
 			}
 		}
+	}
+
+	// R7: the ntor status reports a degenerate (all-zero) Diffie-Hellman result for each exponent separately
+	if spec, err := loadSpec("ntor.json"); err == nil {
+		evalSpecFiltered(c, p, spec, "R7", "R7", "R7", func(kind, name string) bool {
+			return kind == "term" && (name == "common/ntor:ClientHandshake#0" || name == "common/ntor:ServerHandshake#0")
+		})
+	}
+	// R8: parsing does not depend on how the response was chunked: every call re-scans from the fixed offset
+	if spec, err := loadSpec("obfs4_wire.json"); err == nil {
+		evalSpecFiltered(c, p, spec, "R8", "R8", "R8", func(kind, name string) bool {
+			return kind == "call" && strings.HasSuffix(name, "findMarkMac")
+		})
 	}
 
 	// R5: CompareAuth
